@@ -2304,9 +2304,20 @@ impl fmt::Display for XmlElement {
         } else {
             write!(f, ">")?;
 
+            // Adjacent text nodes (edits can make them) are one run of character data: a
+            // "]]>" that only arises where two of them meet gets its '>' escaped.
+            let mut run = String::new();
             for child in self.children.borrow().as_slice() {
+                if let XmlItem::Text(text) = &**child {
+                    run.push_str(text.borrow().text.as_str());
+                    continue;
+                }
+
+                write!(f, "{}", run.replace("]]>", "]]&gt;"))?;
+                run.clear();
                 child.fmt(f)?;
             }
+            write!(f, "{}", run.replace("]]>", "]]&gt;"))?;
 
             write!(f, "</")?;
             if let Some(prefix) = self.prefix.as_deref() {
